@@ -1,7 +1,13 @@
-// C02 known finding "call-to-main": a call whose target is `main` is mis-translated by fun2core.
-// compile_main gives the Core definition `main` NO return-continuation parameter and ends its body
-// in `exit`, but a call site still passes `args ++ [continuation]`:
-//   scc compile:  def main(n: prd i64) { ... main(0, mutilde r. println_i64(r + 100); <r + 1 | mutilde x0. exit x0>) }
+// C02 FORMER finding "call-to-main" (repaired in /repo by <commitmain>; regression input): a call whose target is
+// `main`.  Before the fix compile_main gave the Core definition `main` NO return-continuation parameter and ended its
+// body in `exit`, but a call site still passed `args ++ [continuation]`:
+//   old scc compile:  def main(n: prd i64) { ... main(0, mutilde r. println_i64(r + 100); <r + 1 | mutilde x0. exit x0>) }
+// Source semantics (Sem/FunSem.v), args = 2: prints 2, the inner main(0) RETURNS 7, prints 107, result 8
+// (stdout "2\n107\n", exit status 8).  Old Core abstract machine: stuck "call-arity"; old native x86-64 binary:
+// printed 2, then the inner `main` EXITED the process with status 7.
+// Now: def main0(n) { main(n, mutilde x0. exit x0) }  def main(n, a0) { ... main(0, mutilde r. ... <r + 1 | a0>) }
+// and both the Core machine and the binary behave like the source.
+def main(n: prd i64) { ... main(0, mutilde r. println_i64(r + 100); <r + 1 | mutilde x0. exit x0>) }
 // Source semantics (Sem/FunSem.v), args = 2: prints 2, the inner main(0) RETURNS 7, prints 107, result 8
 // (stdout "2\n107\n", exit status 8).
 // Core abstract machine: stuck "call-arity" (2 arguments for 1 parameter).
